@@ -78,7 +78,7 @@ CHECKS = {
             'F_A (length 3..6 / 3..7), F_B and the residuals left after a first extraction (non-initial states) x stop rules '
             'x thresholds x step sizes x iteration limits x envelope configurations; every get_next_imf call is compared '
             'with a reference iterate sequence (value, number of envelope evaluations, continue flag, convergence error, '
-            'energy threshold).',
+            'energy threshold). Amplitude-scaled copies (x 1e-9, x 1e7) are included and all tolerances are relative.',
             'Reference envelope stage = the repository\'s own interp_envelope (C05 judges it); boundary iterate max_iters+1 may return or raise.',
             'DESIGN.md section 3 / C04'),
     'C05': ('I', 'bounded-exhaustive input x configuration enumeration vs. independent reference',
@@ -92,14 +92,18 @@ CHECKS = {
             'Six variants x 19 option sets (one-at-a-time and combined deviations) x three delivery routes x signals with the '
             'serial pool, and every chunk->worker assignment (P=2) for the pooled variants under the controlled fork pool. '
             'Oracle 1: seams record the effective arguments of every get_next_imf / interp_envelope / get_padded_extrema '
-            'call in the parent and in every worker; oracle 2: output equals a pipeline assembled from the stage functions.',
+            'call in the parent and in every worker; oracle 2: output equals a pipeline assembled from the stage functions '
+            '(fresh option copies per stage call); oracle 3: the delivery route (incl. nested-indexing edits of the config) '
+            'does not change the result; oracle 4: option dictionaries are unchanged and defaults stay the defaults afterwards.',
             'Seams interpose on emd.sift module globals at run time; oracle 2 does not depend on them.',
             'DESIGN.md section 3 / C06'),
     'C07': ('I+S', 'executable specification + exhaustive chunk-to-worker schedule exploration',
             'mask_sift against an executable specification of the masking rule over a 2592-point configuration grid '
             '(rotating sub-grids per signal), get_next_imf_mask over frequency x amplitude x nphases, and every schedule of '
             'nphases x nprocesses (quick <= 5 x 3, thorough <= 8 x 8, plus two-pool products) under the controlled fork '
-            'pool: every schedule must reproduce the serial result bit-for-bit with the same multiset of task inputs.',
+            'pool: every schedule must reproduce the single-process result bit-for-bit with the same multiset of task inputs. '
+            'The specification is compared layer by layer (zero-amplitude layers and four option sets included); argument '
+            'arrays must be unchanged and a repeated call identical.',
             'Specification uses emd.sift.get_next_imf as stage function; CPython chunking rule assumed and checked against the real pool.',
             'DESIGN.md section 3 / C07'),
     'C08': ('S', 'exhaustive chunk-to-worker schedule exploration on the real code, real-pool conformance',
@@ -107,14 +111,15 @@ CHECKS = {
             'assignment of task chunks to workers for E x P (quick E<=6, P<=4; thorough 8 x 8), both noise modes, three noise '
             'levels; the array actually handed to each member sift is traced in the worker, members must be pairwise '
             'different and the output must be the per-IMF mean recomputed in the parent. Stock multiprocessing.Pool runs are '
-            'validated as members of the enumerated space with equal observations.',
+            'validated as members of the enumerated space with equal observations. An uncapped family sweeps noise draws so '
+            'that members with unequal +/- IMF counts occur.',
             'Models chunk placement only (the only freedom of Pool.starmap); not worker death or spawn start method.',
             'DESIGN.md section 2.4, 3 / C08'),
     'C09': ('I', 'bounded-exhaustive grid enumeration (structural, accuracy, round trip)',
             'Structural laws (shape, phase range, IF = derivative of phase, scale laws, amplitude normalisation) over methods x '
             'multi-column signals x sample rates x scales; recovery of pure sinusoids over a cycles x amplitude x phase x '
             'sample-rate grid (1e-9 for integer cycle counts with hilbert); exact phase<->frequency round trip for every '
-            '3-level profile up to length 7/9.',
+            '3-level profile up to length 7/9; scale factors 2^-40..2^40, [N x M x K] input, smooth_phase None / 3.',
             'The accuracy clause is over a continuum: decided on the grid only; tolerances documented in the evidence assumptions.',
             'DESIGN.md section 3 / C09'),
     'C15': ('H', 'explicit-state BFS over operation histories on real objects vs. reference model',
